@@ -50,8 +50,9 @@ RULE = ('cases: extent pairs, bounding boxes (boundary) of 1..5 fields incl. who
 TRUSTED = ['NumPy slicing/broadcasting semantics for data[slice] * data[slice], out[slice] += data and out[...] += 0-d data '
            '(modelled by hand in Model/Field.lean, Model/FieldZ.lean)']
 UNPROVEN = ['product of two one-element fields at DIFFERENT offsets: the code returns the empty product (documented rule of '
-            'Field.__mul__), not the product of two infinite constants; mul_scalar_scalar_sem_partial proves the literal reading only '
-            'for equal offsets']
+            'Field.__mul__, proved in full as mul_scalar_scalar_rule), not the product of two infinite constants as the property text '
+            'reads literally; that reading is false of the code there (witness example in Props/C06.lean), so '
+            'mul_scalar_scalar_sem_partial (equal offsets) cannot be completed by a proof — it is a scope cut of the statement']
 ASSUMPTIONS = ['merge/reduce never raise (mergeZ_total, reduce_defined, reduceZ_defined): on the single origin pixel the merged data '
                'is 0-d iff every member is, else a (1,1) array (mergeZ_zero_d_iff)',
                'the product of two one-element fields follows the documented rule: empty unless the offsets are equal',
@@ -66,9 +67,11 @@ ASSUMPTIONS = ['merge/reduce never raise (mergeZ_total, reduce_defined, reduceZ_
                'pixelscale/tilt bookkeeping of Field is not modelled; the harness checks only that merge refuses different '
                'pixelscales and keeps a common one, and that a product carries self.tilt + other.tilt (sampled); _merge drops tilt '
                'and __mul__ drops pixelscale by design of the code (not judged)',
-               'the tests generated into Gen.FieldDispatch for __mul__/_mul_scalar and the _disjoint step are tied to the shared hand '
-               'model (Fld.mul, disjoint) by equality theorems (mul_dispatch_spec, disjoint_step_spec), not consumed by it; the '
-               'overlap/reduce/merge tests are consumed by the 0-d aware model (Model/FieldZ.lean)']
+               'the tests generated into Gen.FieldDispatch are consumed by the models: Fld.mul (size test, offset comparison), disjoint '
+               'and disjointZ (step constants), GroupZ.out / overlapL / mergePublic (thresholds); closed forms: Fld.mul_closed, '
+               'disjoint_succ_some, GroupZ.out_eq, overlapL_two/many, mergePublic_eq. The container type of an offset (list / tuple / '
+               'ndarray) enters the translation of _mul_scalar as a tag that np.array_equal ignores (mul_dispatch_spec); the model '
+               'itself has integer offsets only, the harness draws the container types']
 
 def _field(rng, kmax=5, omax=6, allow_one=True, zero_d=False):
     shape = pick_shape(rng, kmax, allow_one)
